@@ -502,10 +502,10 @@ Definition log_consume_by_key (st : lstate) (k : bytes) (off max : Z)
     do i <- seg_consume (bases (segs st)) off;
     consume_by_key_fwd c st k (S (length (segs st))) i off max.
 
-(* log.GetByTime — with the F2 repair: walk newest to oldest, remember the
-   best candidate, skip empty segments, stop at the first segment that ends
-   before ts *)
-Inductive tcand := TNone | TFound (m : msg) | TBefore (i : Z).
+(* log.GetByTime: walk newest to oldest, remember the best candidate, skip
+   empty segments, stop at the first segment that ends before ts; a log
+   without any message reports ErrTimeIndexEmpty *)
+Inductive tcand := TEmpty | TNone | TFound (m : msg) | TBefore (i : Z).
 
 Fixpoint get_by_time_back (c : cfg) (st : lstate) (ts : Z) (n : nat) (i : Z) (cand : tcand)
   : res (lstate * tcand) :=
@@ -518,7 +518,7 @@ Fixpoint get_by_time_back (c : cfg) (st : lstate) (ts : Z) (n : nat) (i : Z) (ca
     | Ok m => get_by_time_back c st1 ts n' (i - 1) (TFound m)
     | Err ETimeBefore => get_by_time_back c st1 ts n' (i - 1) (TBefore i)
     | Err ETimeEmpty => get_by_time_back c st1 ts n' (i - 1) cand
-    | Err ETimeAfter => Ok (st1, cand)
+    | Err ETimeAfter => Ok (st1, match cand with TEmpty => TNone | _ => cand end)
     | Err e => Err e
     end
   end.
@@ -527,9 +527,10 @@ Definition log_get_by_time (st : lstate) (ts : Z) : res (lstate * msg) :=
   do c <- get_cfg st;
   if negb (ctimes c) then Err ENoIndex
   else
-    do r <- get_by_time_back c st ts (length (segs st)) (zlen (segs st) - 1) TNone;
+    do r <- get_by_time_back c st ts (length (segs st)) (zlen (segs st) - 1) TEmpty;
     let '(st1, cand) := r in
     match cand with
+    | TEmpty => Err ETimeEmpty
     | TNone => Err ETimeNotFound
     | TFound m => Ok (st1, m)
     | TBefore i =>
